@@ -15,6 +15,8 @@ ASSUMPTIONS = [
     "internal OLT transfers made by contract code (inner CALL with value, SELFDESTRUCT) are part of the oracle answer; the harness derives them "
     "from the semantics of its own eight tiny programs",
     "negative gas price / negative value (only constructible by a block proposer bypassing CheckTx) are outside the generated inputs",
+    "the nonce statements about the sender assume it is not among the accounts that executed SELFDESTRUCT in the transaction (an externally "
+    "owned sender has no code; preCheck rejects senders with code)",
     "DeliverTx does not re-run Validate (signature, chain id, minimum price): that is C04's finding; here the model of deliver is faithful to it "
     "(wrong-chain-id and zero-price transactions delivered by a proposer execute) and CheckTx acceptance is modelled separately (validate)",
 ]
@@ -33,11 +35,20 @@ MISMATCH = {1: "verdict (code) differs", 2: "gas used differs", 3: "ledger after
 
 
 def known_trigger(clause, trig):
-    if clause == 7 and trig & 1:
-        return "C17.nonce_gap"
-    if clause in (1, 5) and trig & 2:
-        return "C17.selfdestruct_funded"
+    """No known finding is left for C17 (C17.nonce_gap and C17.selfdestruct_funded are fixed in /repo and
+    suppress nothing): every monitor violation is a VIOLATION."""
     return None
+
+
+def corpus_jobs():
+    """findings/C17_*.json: the histories of the repaired findings, replayed on every run, property expected to hold"""
+    jobs = []
+    d = os.path.join(common.VERIF, "findings")
+    for f in sorted(os.listdir(d)):
+        if f.startswith("C17_") and f.endswith(".json"):
+            rp = json.load(open(os.path.join(d, f)))
+            jobs.append(("corpus_" + f[4:-5], rp.get("hseed", rp["seed"]), rp["blocks"], rp.get("txs", 8), rp.get("directed", True)))
+    return jobs
 
 
 def run_harness(ctx, vh, out_dir, jobs):
@@ -88,7 +99,7 @@ def payload(job, idx, step, extra):
     tag, seed, blocks, txs, directed = job
     keep = {k: step[k] for k in ("Kind", "Class", "From", "To", "Value", "Price", "Gas", "Nonce", "NZ", "Z", "ChainOK", "MemoOK", "Amount", "Dup",
                                    "SenderCode", "Failed", "Int", "Dead", "Code", "GasUsed", "Check", "Pre", "Post", "Views", "Height", "Log", "TxHex")}
-    return dict(extra, seed=seed, blocks=blocks, txs=txs, directed=directed, step=idx, observed=keep,
+    return dict(extra, hseed=seed, blocks=blocks, txs=txs, directed=directed, step=idx, observed=keep,
                 how="./check replay <this file>  (re-runs the same seeded history on the real application and judges this step)")
 
 
@@ -134,7 +145,8 @@ def run(ctx):
     vh = common.build_harness()
     out_dir = os.path.join(ctx.scratch, "c17")
     os.makedirs(out_dir, exist_ok=True)
-    runs = run_harness(ctx, vh, out_dir, plan(ctx))
+    cjobs = corpus_jobs()
+    runs = run_harness(ctx, vh, out_dir, cjobs + plan(ctx))
     mms, pvs, oh, ck = evaluate(ctx, runs, out_dir)
     classes, outcomes, checks = {}, {}, {}
     steps = distinct = views = contracts = 0
@@ -163,14 +175,15 @@ def run(ctx):
         "traces_validated_against_impl": steps,
         "generator_classes": dict(sorted(gen.items())), "outcomes": outcomes, "check_vs_deliver": checks,
         "evm_view_reads": views, "contracts_deployed": contracts,
+        "corpus_histories": [j[0] for j in cjobs],
         "model_mismatches": len(mms), "monitor_violations": len(pvs),
         "monitor_violations_by_clause": {str(c): sum(1 for x in pvs if x[2] == c) for c in sorted({x[2] for x in pvs})},
         "oracle_answers_outside_hypothesis": oh, "constants_match": ck == 1,
         "samples": samples,
         "explanation": "theorems of props/C17.v re-checked; Olvm.v evaluated by vm_compute on every recorded transaction of the real app.App "
                        "(verdict, gas used, ledger after, CheckTx acceptance: model_mismatches must be 0); the monitor evaluates the property's "
-                       "equalities on the observed deltas and the EVM-vs-native reads; violations inside a Coq-defined trigger region that match "
-                       "the defective model are the known findings",
+                       "equalities on the observed deltas and the EVM-vs-native reads; the histories of the two repaired findings "
+                       "(findings/C17_*.json) are replayed first as corpus cases and must satisfy the property",
     })
     seen = judge(ctx, mms, pvs, oh, ck)
     ctx.coverage["known_finding_steps"] = seen
@@ -185,7 +198,7 @@ def replay(ctx, rp):
         raise Broken("model does not build", log[-2000:])
     out_dir = os.path.join(ctx.scratch, "c17")
     os.makedirs(out_dir, exist_ok=True)
-    job = (0, rp["seed"], rp["blocks"], rp.get("txs", 8), rp.get("directed", True))
+    job = (0, rp.get("hseed", rp["seed"]), rp["blocks"], rp.get("txs", 8), rp.get("directed", True))
     runs = run_harness(ctx, vh, out_dir, [job])
     mms, pvs, oh, ck = evaluate(ctx, runs, out_dir)
     want = rp.get("step")
